@@ -87,6 +87,11 @@ TEXT = {
                            "disjoint from a majority of the other (closed form over the two voter sets).", "note": _N1},
     "C27": {"level": _E1 + "No vote request or granted vote ever originates from a node whose role is Learner; learners' ACKs are never "
                            "needed for a commit (C09 oracle in the same runs).", "note": _N1 + " Join-response timing and promotion catch-up are not yet checked."},
+    "C28": {"level": _E1 + "Membership plans (learners joining, automatic promotion) with graceful restarts, process crashes, power loss and "
+                           "whole-cluster restarts of any node at any point, each restart with the original initial_cluster. Oracle "
+                           "right after every rebuild: members/voters/learners of the node equal the fold of all committed "
+                           "membership changes at or below the node's applied index (taken from the commit ledger) over its "
+                           "initial configuration.", "note": _N1 + " The harness replicates NodeBuilder's start-up decisions (membership from initial_cluster, commit index = applied index)."},
     "C29": {"level": _E1 + "Each acknowledged write's own entry was applied on the answering node before the reply (event sequence "
                            "numbers); CAS replies equal the applied outcome; unique values make crossed responses visible.", "note": _N1},
     "C30": {"level": _E1 + "Raw client commands with their own oneshot and no client timeout: an answer must arrive within "
@@ -96,6 +101,11 @@ TEXT = {
                            "across nodes, every notified (leader, term) is in the leader ledger.", "note": _N1},
     "C32": {"level": _E1 + "After the last fault: heal, restart everything, quiet period max(10 x election_timeout_max, 3 x general "
                            "timeout, 8 s); then a leader exists, a fresh write commits and every live voter applied up to the commit index.", "note": _N1},
+    "C33": {"level": _E1 + "Small snapshot thresholds so that snapshots and purges happen (thousands per batch), with lagging and "
+                           "restarting peers. Safety oracle at the instant of every LogStore::purge call: cutoff <= highest committed "
+                           "index (commit ledger) and <= the boundary of the snapshot the node holds. Progress oracle after the quiet "
+                           "period: no live voter is stuck behind the leader's purge boundary (peer_stuck_behind_purge_boundary).",
+            "note": _N1 + " MemSm snapshots; the File engine's in-memory snapshot metadata is not exercised here."},
     "C35": {"level": _E1 + "Multi-key reads with duplicate and never-written keys through EmbeddedClient and raw read commands: one "
                            "result per key, duplicates agree, missing keys absent.", "note": _N1 + " The gRPC client library's realignment (d-engine-client) is not executed."},
     "C37": {"level": _E1 + "Every command in the apply ledger equals (kind, key, value, expected, ttl) of the submitted operation carrying "
@@ -106,8 +116,6 @@ NOT_CLAIMED = {
     "C17": "not claimed yet: the snapshot-stream mutation harness (E3) is not built",
     "C24": "not claimed yet: the watch harness (E3) is not built",
     "C25": "not claimed yet: the scan/apply interleaving harness is not built",
-    "C28": "not claimed yet: membership-after-restart oracle not built",
-    "C33": "not claimed yet: purge-safety oracle not built",
     "C36": "not claimed yet: merge-equivalence scenario not built",
     "C34": "not applicable: RaftConfig::validate() is a pure function of numbers - no schedule, clock, fault or interleaving for a simulator to decide (DESIGN.md §12)",
 }
